@@ -66,7 +66,7 @@ func runOne(c *verdict.Ctx, stream string, idx int, control bool, cov *covAgg) (
 	steps := cfg.Steps
 	chunk := 10
 	recipeAt := -1
-	if r.Intn(2) == 0 {
+	if r.Intn(3) > 0 {
 		recipeAt = r.Intn(steps/2+1) / chunk * chunk
 	}
 	for s := 0; s < steps; s += chunk {
@@ -75,9 +75,12 @@ func runOne(c *verdict.Ctx, stream string, idx int, control bool, cov *covAgg) (
 			_, hi0 := net.MinMaxHeight()
 			net.RunSync(hi0, 60, 400, nil)
 			var label string
-			if r.Intn(3) == 0 {
+			switch r.Intn(5) {
+			case 0:
 				label = "commit-without-block:" + net.RecipeCommitWithoutBlock()
-			} else {
+			case 1, 2:
+				label = "lock-attack:" + net.RecipeLockAttack()
+			default:
 				label = "split-lock:" + net.RecipeSplitLock()
 			}
 			c.Count("recipe."+label, 1)
